@@ -98,6 +98,10 @@ fn main() {
 					println!("replay: property {prop} holds on this case");
 					exit(0)
 				}
+				Ok(Err(m)) if m.starts_with("UNSUPPORTED") => {
+					eprintln!("INCONCLUSIVE: {m}");
+					exit(2)
+				}
 				Ok(Err(m)) => {
 					println!("VIOLATION property={} replay={}", prop, args[2]);
 					eprintln!("  {m}");
